@@ -29,7 +29,7 @@
 //!
 //! See: `/specs/001-adt-binrw-refactor/CROSS_REFERENCE_MCNK.md` for full analysis
 
-use crate::chunk_header::ChunkHeader;
+use crate::chunk_header::{ChunkHeader, read_chunk_data};
 use crate::chunk_id::ChunkId;
 use binrw::{BinRead, BinResult};
 use std::io::{Read, Seek, SeekFrom};
@@ -374,8 +374,7 @@ impl McnkChunk {
             let _chunk_header = ChunkHeader::read_le(reader)?;
 
             // Read the actual data using size_liquid from MCNK header
-            let mut data = vec![0u8; header.size_liquid as usize];
-            reader.read_exact(&mut data)?;
+            let data = read_chunk_data(reader, header.size_liquid)?;
 
             if !data.is_empty() {
                 // Pass MCNK flags to MCLQ parser for liquid type detection
@@ -507,8 +506,7 @@ fn read_subchunk<R: Read + Seek>(
     })?;
 
     // Read subchunk data
-    let mut data = vec![0u8; subchunk_header.size as usize];
-    reader.read_exact(&mut data)?;
+    let data = read_chunk_data(reader, subchunk_header.size)?;
 
     Ok(data)
 }
@@ -577,8 +575,7 @@ fn read_subchunk_with_size<R: Read + Seek>(
     }
 
     // Read subchunk data using the expected size
-    let mut data = vec![0u8; expected_size as usize];
-    reader.read_exact(&mut data)?;
+    let data = read_chunk_data(reader, expected_size)?;
 
     Ok(data)
 }
@@ -618,8 +615,7 @@ fn scan_for_subchunk<R: Read + Seek>(
 
         if subchunk_header.id == target_id {
             // Found it! Read the data
-            let mut data = vec![0u8; subchunk_header.size as usize];
-            reader.read_exact(&mut data)?;
+            let data = read_chunk_data(reader, subchunk_header.size)?;
             return Ok(data);
         }
 
